@@ -996,10 +996,23 @@ namespace occa {
       const int tokenCount = (int) lineTokens.size();
       for (int i = 0; i < tokenCount; ++i) {
         token_t *token = lineTokens[i];
+        if (token->type() & tokenType::primitive) {
+          // #if arithmetic is done in intmax_t / uintmax_t:
+          //   unsigned only with a U suffix or when the value needs it
+          primitive &value = token->to<primitiveToken>().value;
+          const bool hasU = (value.source.find_first_of("uU") != std::string::npos);
+          if (value.isBool() || value.isSigned() || (value.isUnsigned() && !hasU
+                                                     && (value.to<uint64_t>() <= 0x7FFFFFFFFFFFFFFFull))) {
+            value = primitive(value.to<int64_t>());
+          } else if (value.isUnsigned()) {
+            value = primitive(value.to<uint64_t>());
+          }
+          continue;
+        }
         if (!(token->type() & tokenType::identifier)) {
           continue;
         }
-        lineTokens[i] = new primitiveToken(token->origin, 0, "0");
+        lineTokens[i] = new primitiveToken(token->origin, (int64_t) 0, "0");
         delete token;
       }
 
